@@ -10,6 +10,7 @@ require (
 	github.com/fako1024/gotools/concurrency v0.0.0-20260108133916-d42cb4e89f05
 	github.com/fako1024/gotools/link v0.0.0-20260511092824-089d64760c34
 	github.com/fako1024/slimcap v1.0.12
+	github.com/gin-gonic/gin v1.12.0
 	github.com/json-iterator/go v1.1.12
 	golang.org/x/net v0.55.0
 	golang.org/x/time v0.15.0
@@ -29,7 +30,6 @@ require (
 	github.com/gin-contrib/cors v1.7.7 // indirect
 	github.com/gin-contrib/pprof v1.5.4 // indirect
 	github.com/gin-contrib/sse v1.1.1 // indirect
-	github.com/gin-gonic/gin v1.12.0 // indirect
 	github.com/go-logr/logr v1.4.3 // indirect
 	github.com/go-logr/stdr v1.2.2 // indirect
 	github.com/go-openapi/jsonpointer v0.23.1 // indirect
